@@ -152,9 +152,10 @@ class Ctx:
         json.dump({"Replace": rep}, open(p, "w"))
         return p
 
-    def harness_overlay(self, *pkgs, extra=None):
-        """Overlay every file of /verif/harness/<pkg>/ into /repo/<pkg>/ (files named zz_verif_*).
-        The shared package harness/verifcommon is always added as /repo/internal/verifcommon."""
+    def harness_overlay(self, *pkgs, extra=None, only=None):
+        """Overlay the files of /verif/harness/<pkg>/ into /repo/<pkg>/.  `only`: tuple of file-name
+        prefixes to include (several checks share package directories; each overlays its own files).
+        The shared package harness/internal/verifcommon is always added as /repo/internal/verifcommon."""
         mapping = {}
         allp = list(pkgs) + ["internal/verifcommon"]
         for pkg in allp:
@@ -162,8 +163,11 @@ class Ctx:
             if not os.path.isdir(d):
                 continue
             for f in sorted(os.listdir(d)):
-                if f.endswith(".go"):
-                    mapping[os.path.join(pkg, f)] = os.path.join(d, f)
+                if not f.endswith(".go"):
+                    continue
+                if only and pkg != "internal/verifcommon" and not f.startswith(tuple(only)):
+                    continue
+                mapping[os.path.join(pkg, f)] = os.path.join(d, f)
         mapping.update(extra or {})
         return self.overlay(mapping)
 
